@@ -21,10 +21,15 @@ RULE = ("instants (whole second t in year 1..9999 or a digit-band edge, plus a s
         "non-trivial when the implementation accepted it, distinct by (spelling kind, resulting second); "
         "call sites: every spelling through payload normaliser / WHERE rows / SINCE rows / planner literal rewriting / "
         "zone pruner (tsite_all, tsite_payload|where|filter|since|matspec) and (operator x literal x zones of stamps "
-        "around the literal, the epoch and 2^32) through the real TemporalIndexBuilder + TemporalPruner (tsite_prune)")
+        "around the literal, the epoch and 2^32) through the real TemporalIndexBuilder + TemporalPruner (tsite_prune); "
+        "PER buckets: single instants x fixed-offset zones (agg_buckettz) and SEQUENCES of 2..8 rows (ascending, descending, "
+        "alternating, shuffled; around offset changes and around the bucket starts next to them) x 18 zones (northern / "
+        "southern DST, midnight switches, 30-minute step, non-hour offsets, no DST) x week start x granularity through the "
+        "aggregate sink's own bucketing entry (row path, columnar path, real AggregateOp with and without BY) in a process "
+        "configured with that zone (agg_bseq)")
 ASSUMPTIONS = [
     "chrono 0.4.40's RFC 3339 and %Y-%m-%d parsers are modelled by hand at byte level (ASCII whitespace only); the tie is the differential run",
-    "named time zones (chrono-tz) are not modelled",
+    "named time zones: the model takes the offset changes of the zone from CPython's zoneinfo (system tz database) on the case line; chrono-tz's compiled-in database is assumed to agree with it for 1990..2037 (a difference shows as a disagreement)",
     "JSON floats are compared only on decimals with at most 15 significant digits (f64 rounding is not modelled)",
 ]
 TRUSTED = [
@@ -586,28 +591,54 @@ def nontrivial_key(c, impl):
 
 
 # ---------------------------------------------------------------------------------------------
-# PER buckets under a configured fixed-offset time zone (tools/props/c16_bucket.py) folded in.
+# PER buckets under a configured fixed-offset time zone (tools/props/c16_bucket.py) and sequences of rows through
+# the aggregate sink under a configured daylight-saving zone (tools/props/c16_bseq.py) folded in.
 from props import c16_bucket as _BK
+from props import c16_bseq as _BS
 
-_A16 = {"cases": cases, "same": same, "oracle": oracle, "classify": classify, "nontrivial_key": nontrivial_key}
-THEOREMS = list(THEOREMS) + list(_BK.THEOREMS)
+_A16 = {"cases": cases, "same": same, "oracle": oracle, "classify": classify, "nontrivial_key": nontrivial_key,
+        "run_sides": run_sides}
+THEOREMS = list(THEOREMS) + list(_BK.THEOREMS) + ["C16_bucket_zone_fixed", "C16_bucket_zone_seq_pointwise"]
 
 
 def cases(rng, tier):
-    return _A16["cases"](rng, tier) + _BK.cases(rng.fork("bucket"), tier)
+    return _A16["cases"](rng, tier) + _BK.cases(rng.fork("bucket"), tier) + _BS.cases(rng.fork("bseq"), tier)
+
+
+def run_sides(cases_, model_ok):
+    mine = [i for i, c in enumerate(cases_) if _BS.is_mine(c)]
+    rest = [i for i, c in enumerate(cases_) if not _BS.is_mine(c)]
+    impl, model = [None] * len(cases_), [None] * len(cases_)
+    ri, rm = _A16["run_sides"]([cases_[i] for i in rest], model_ok)
+    for j, i in enumerate(rest):
+        impl[i], model[i] = ri[j], rm[j]
+    if mine:
+        bi, bm = _BS.run_sides([cases_[i] for i in mine], model_ok)
+        for j, i in enumerate(mine):
+            impl[i], model[i] = bi[j], bm[j]
+    return impl, model
+
+
+def _part(c):
+    return _BS if _BS.is_mine(c) else _BK if _BK.is_mine(c) else None
 
 
 def same(c, impl, model):
-    return _BK.same(c, impl, model) if _BK.is_mine(c) else _A16["same"](c, impl, model)
+    m = _part(c)
+    return m.same(c, impl, model) if m else _A16["same"](c, impl, model)
 
 
 def oracle(c, impl):
-    return _BK.oracle(c, impl) if _BK.is_mine(c) else _A16["oracle"](c, impl)
+    m = _part(c)
+    return m.oracle(c, impl) if m else _A16["oracle"](c, impl)
 
 
 def classify(c, impl):
+    if _BS.is_mine(c):
+        return _BS.classify(c, impl)
     return None if _BK.is_mine(c) else _A16["classify"](c, impl)
 
 
 def nontrivial_key(c, impl):
-    return _BK.nontrivial_key(c, impl) if _BK.is_mine(c) else _A16["nontrivial_key"](c, impl)
+    m = _part(c)
+    return m.nontrivial_key(c, impl) if m else _A16["nontrivial_key"](c, impl)
